@@ -58,7 +58,16 @@ type hStoreCfg struct {
 	Kind      string `json:"kind"` // mem | redis
 	Shards    int    `json:"shards,omitempty"`
 	Instances int    `json:"instances,omitempty"`
+	// Live: the store's OWN goroutines do the expiry and the Prometheus reporting (short intervals, a 30 s peer lifetime)
+	// instead of the driver calling collectGarbage / populateProm: the loop around the modelled pass - when it runs, and
+	// with which cutoff (now - peer_lifetime) - is code too.  Clocks of a live history are relative to the wall clock.
+	Live bool `json:"live,omitempty"`
 }
+
+const (
+	hLiveInterval = 40 * time.Millisecond
+	hLiveLifetime = 30 * time.Second
+)
 
 var evMap = []bittorrent.Event{bittorrent.None, bittorrent.Started, bittorrent.Stopped, bittorrent.Completed}
 
@@ -119,6 +128,8 @@ func gaugeVal(g interface{ Write(*dto.Metric) error }) int64 {
 }
 
 type hEnv struct {
+	liveStart    int64 // wall clock (ns) when a live history began
+	inconclusive string
 	cfg    hStoreCfg
 	stores []storage.PeerStore
 	logics []*middleware.Logic
@@ -126,11 +137,15 @@ type hEnv struct {
 }
 
 func newHEnv(cfg hStoreCfg) (*hEnv, error) {
-	e := &hEnv{cfg: cfg}
+	e := &hEnv{cfg: cfg, liveStart: time.Now().UnixNano()}
 	huge := 1000 * time.Hour
+	gcI, promI, life := huge, huge, huge
+	if cfg.Live {
+		gcI, promI, life = hLiveInterval, hLiveInterval, hLiveLifetime
+	}
 	switch cfg.Kind {
 	case "mem":
-		ps, err := memory.New(memory.Config{ShardCount: cfg.Shards, GarbageCollectionInterval: huge, PrometheusReportingInterval: huge, PeerLifetime: huge})
+		ps, err := memory.New(memory.Config{ShardCount: cfg.Shards, GarbageCollectionInterval: gcI, PrometheusReportingInterval: promI, PeerLifetime: life})
 		if err != nil {
 			return nil, err
 		}
@@ -142,8 +157,8 @@ func newHEnv(cfg hStoreCfg) (*hEnv, error) {
 		}
 		e.mr = mr
 		for i := 0; i < cfg.Instances; i++ {
-			ps, err := redisstore.New(redisstore.Config{RedisBroker: "redis://@" + mr.Addr() + "/0", GarbageCollectionInterval: huge,
-				PrometheusReportingInterval: huge, PeerLifetime: huge, RedisReadTimeout: 10 * time.Second, RedisWriteTimeout: 10 * time.Second, RedisConnectTimeout: 10 * time.Second})
+			ps, err := redisstore.New(redisstore.Config{RedisBroker: "redis://@" + mr.Addr() + "/0", GarbageCollectionInterval: gcI,
+				PrometheusReportingInterval: promI, PeerLifetime: life, RedisReadTimeout: 10 * time.Second, RedisWriteTimeout: 10 * time.Second, RedisConnectTimeout: 10 * time.Second})
 			if err != nil {
 				return nil, err
 			}
@@ -176,6 +191,25 @@ func (e *hEnv) exec(op hOp) (string, map[string]interface{}) {
 	case "clock":
 		timecache.VerifPin(op.Ns)
 		return fmt.Sprintf("HClock %s", cZ(op.Ns)), obs
+	case "liveclock":
+		// Ns is an offset from (start of the history - peer lifetime): negative = already stale, positive = still alive
+		ns := e.liveStart - int64(hLiveLifetime) + op.Ns
+		timecache.VerifPin(ns)
+		obs["ns"] = ns
+		return fmt.Sprintf("HClock %s", cZ(ns)), obs
+	case "livewait":
+		// let the store's own expiry goroutine run (several intervals), then tell the model the cutoff of a pass made NOW:
+		// every pass so far used an earlier cutoff, and the history keeps all stored times at least 2 s away from the
+		// cutoffs of the first 8 s - so the state after the real passes is the model's after one pass with this cutoff
+		time.Sleep(12 * hLiveInterval)
+		now := time.Now().UnixNano()
+		if now-e.liveStart > int64(8*time.Second) {
+			e.inconclusive = "the machine was too slow: more than 8 s since the live history began"
+		}
+		cut := now - int64(hLiveLifetime)
+		obs["cutoff"] = cut
+		time.Sleep(3 * hLiveInterval) // a pass running right now finishes; the reporting goroutine catches up
+		return fmt.Sprintf("HGC %s", cZ(cut)), obs
 	case "ann":
 		req := &bittorrent.AnnounceRequest{Event: evMap[op.Ev], InfoHash: bittorrent.InfoHashFromBytes(unhx(op.IH)), NumWant: op.NW,
 			Left: op.Left, Peer: mkPeer(op), NumWantProvided: true, EventProvided: true}
@@ -277,7 +311,9 @@ func (e *hEnv) exec(op hOp) (string, map[string]interface{}) {
 		var shards []string
 		var ri, rs, rl int64
 		if e.cfg.Kind == "mem" {
-			memory.VerifPopulateProm(ps)
+			if !e.cfg.Live {
+				memory.VerifPopulateProm(ps)
+			}
 			for _, s := range memory.VerifShards(ps) {
 				shards = append(shards, fmt.Sprintf("(%d, %d, %d, %d)", s.NumSeeders, s.NumLeechers, s.Seeders, s.Leechers))
 				ri += int64(s.Swarms)
@@ -285,7 +321,9 @@ func (e *hEnv) exec(op hOp) (string, map[string]interface{}) {
 				rl += int64(s.Leechers)
 			}
 		} else {
-			redisstore.VerifPopulateProm(ps)
+			if !e.cfg.Live {
+				redisstore.VerifPopulateProm(ps)
+			}
 			for _, k := range e.mr.Keys() {
 				if len(k) == 47 && (strings.HasPrefix(k, "IPv4_S_") || strings.HasPrefix(k, "IPv6_S_")) {
 					f, _ := e.mr.HKeys(k)
@@ -406,6 +444,10 @@ func runHistory(o *Out, kind string, cfg hStoreCfg, ops []hOp) {
 	var jops []interface{}
 	for _, op := range ops {
 		jops = append(jops, op)
+	}
+	if env.inconclusive != "" {
+		o.notes["live_history_skipped"] = env.inconclusive
+		return
 	}
 	o.add(Case{Coq: fmt.Sprintf("(%s, [\n  %s])", sk, strings.Join(terms, ";\n  ")), Kind: kind,
 		In: map[string]interface{}{"store": cfg, "ops": jops}, Obs: map[string]interface{}{"ops": jobs}})
@@ -777,8 +819,68 @@ func genGcStory(rng *rand.Rand, pools hPools, instances int, k int) []hOp {
 	return ops
 }
 
+// genLive: a history on a store whose OWN goroutines expire peers and report totals.  Members stored long ago, just stale
+// (2 s past the lifetime), nearly stale (10 s to go) and fresh; after a wait only the last two kinds may be left, the
+// exported totals must have followed without anybody calling populateProm, and a re-announce must have restarted a lifetime.
+func genLive(rng *rand.Rand, pools hPools, instances int, redis bool) []hOp {
+	v6 := rng.Intn(3) == 0
+	sec := int64(time.Second)
+	mk := func(i int, ih string, seeder bool) hOp {
+		id := make([]byte, 20)
+		copy(id, []byte("-LV0001-"))
+		binary.BigEndian.PutUint32(id[16:], uint32(i))
+		op := hOp{T: "store", IH: ih, V6: v6, PID: hx(id), Port: 3000 + i, Inst: rng.Intn(instances), Which: 3}
+		if v6 {
+			ip := net.ParseIP("2001:db8:1::")
+			binary.BigEndian.PutUint32(ip[12:], uint32(i+1))
+			op.IP = hx(ip)
+		} else {
+			op.IP = hx([]byte{10, 8, byte(i >> 8), byte(i)})
+		}
+		if seeder {
+			op.Which = 1
+		}
+		return op
+	}
+	ihA, ihB, ihC := pools.ihs[0], pools.ihs[1], pools.ihs[2%len(pools.ihs)]
+	var ops []hOp
+	n := 0
+	add := func(off int64, ih string, cnt int) {
+		ops = append(ops, hOp{T: "liveclock", Ns: off})
+		for k := 0; k < cnt; k++ {
+			ops = append(ops, mk(n, ih, rng.Intn(2) == 0))
+			n++
+		}
+	}
+	add(-3600*sec, ihA, 1+rng.Intn(3)) // stored an hour before the lifetime ran out
+	add(-3600*sec, ihC, 1+rng.Intn(2)) // a swarm that disappears entirely
+	add(-2*sec, ihA, 1+rng.Intn(2))    // just stale
+	add(-2*sec, ihB, 1)
+	reann := mk(n-1, ihB, true) // ... but this one announces again below
+	add(10*sec, ihA, 1+rng.Intn(2)) // nearly stale: must survive
+	add(10*sec, ihB, 1)
+	ops = append(ops, hOp{T: "liveclock", Ns: int64(hLiveLifetime)}) // now
+	ops = append(ops, mk(n, ihA, true), mk(n+1, ihB, false))
+	if !redis {
+		// (not on Redis: a stale member re-announcing while a pass may be running is the known finding F10)
+		ops = append(ops, reann)
+	}
+	ops = append(ops, hOp{T: "livewait"}, hOp{T: "dump"}, hOp{T: "totals", Inst: rng.Intn(instances)},
+		hOp{T: "scrape", IHs: []string{ihA, ihB, ihC}, V6: v6, Inst: rng.Intn(instances)})
+	return ops
+}
+
 func histStream(o *Out, rng *rand.Rand, n int, emphasis string) {
 	memShards := []int{1, 2, 7, 1024}
+	// live histories: the stores' own expiry / reporting goroutines at work
+	for k := 0; k < 2+n/400; k++ {
+		cfg := hStoreCfg{Kind: "mem", Shards: memShards[k%len(memShards)], Live: true}
+		inst := 1
+		if k%2 == 1 {
+			cfg = hStoreCfg{Kind: "redis", Instances: 1, Live: true}
+		}
+		runHistory(o, "live-"+cfg.Kind, cfg, genLive(rng, mkPools(rng, cfg.Shards), inst, cfg.Kind == "redis"))
+	}
 	// the 16 expiry stories (none / all / part / nothing purged, per role): all on the memory store, a third (thorough: all) on Redis
 	for k := 0; k < 16; k++ {
 		cfg := hStoreCfg{Kind: "mem", Shards: memShards[k%len(memShards)]}
